@@ -195,6 +195,10 @@ class Suite:
         # the hidden generic-carrier variant must not be a message
         out.append(("phantom_name", JObj([("__phantom", None)])))
         out.append(("phantom_name2", JObj([("_phantom", [])])))
+        # ... in none of the spellings serde knows for a variant: unit variant as a bare string, newtype / tuple forms
+        out.append(("phantom_name3", "__phantom"))
+        out.append(("phantom_name4", JObj([("__phantom", [])])))
+        out.append(("phantom_name5", JObj([("__phantom", JObj([]))])))
         out.append(("two_keys", JObj([(name, body), ("other_msg", JObj([]))])))
         out.append(("not_object_str", name))
         out.append(("not_object_arr", [doc]))
@@ -230,7 +234,7 @@ class Suite:
                 if c03:
                     docs += self.malformed(c, p)
                 else:
-                    docs += [x for x in self.malformed(c, p) if x[0] in ("phantom_name", "phantom_name2", "unknown_name")]
+                    docs += [x for x in self.malformed(c, p) if x[0].startswith("phantom_name") or x[0] == "unknown_name"]
                 for label, d in docs:
                     text = jsonx.to_text(d)
                     safe = jsonx.coq_safe(d)
@@ -356,6 +360,11 @@ class Suite:
                 if len(names) == len(ms) and d[0][0] not in names:
                     run.oracle_fail("part %s accepts the message name `%s`, which is the name of none of its %s methods (%s)" % (
                         pname, d[0][0], c.kind, sorted(names)), desc)
+        if not isinstance(d, JObj):
+            # a message is a one-key object: no bare string / array / null is a message of any part
+            for pname, _ in accepting:
+                run.oracle_fail("part %s accepts the document %s, which is not an object (a message is a JSON object with exactly "
+                                "one key, the method's name)" % (pname, text[:80]), desc)
         dup = jsonx.has_dup_keys(d)
         cls = "document repeats a key" if dup else ("array in place of message body" if label == "array_body" else None)
         if wobs.get("panicked"):
